@@ -82,3 +82,4 @@ cls('MemoryAccess',
     _ca=TRef('ControllerApplication'), query=TRef('Dm14Query'), server=TRef('DM14Server'), state=TEnum('DMState'),
     seed_security=BOOL, _notify_query_received=TOpt(TFunc()), _seed_key_valid=TOpt(BOOL), _proceed_function=TOpt(TFunc(BOOL)),
     proceed=BOOL, address=INT)
+cls('PyException')
